@@ -26,6 +26,8 @@ pub enum Val {
     Ref { node: String, creation: u32, ids: Vec<u32> },
     /// node-local form (LOCAL_EXT): opaque 8-byte hash + the identifier it wraps
     Local(Vec<u8>, Box<Val>),
+    /// fun M:F/A (EXPORT_EXT)
+    Export(String, String, u8),
 }
 
 impl Val {
@@ -81,6 +83,10 @@ impl Val {
         match self {
             Val::Atom(s) => push(s),
             Val::Pid { node, .. } | Val::Port { node, .. } | Val::Ref { node, .. } => push(node),
+            Val::Export(m, f, _) => {
+                push(m);
+                push(f);
+            }
             Val::Local(_, inner) => {
                 // the wrapped identifier's node name is part of the opaque bytes on the wire, but
                 // writers may still list it in a distribution header
@@ -195,6 +201,13 @@ pub fn enc_term(out: &mut Vec<u8>, v: &Val, pos: Option<&AtomPositions>) {
             enc_atom(out, node, pos);
             out.extend_from_slice(&id.to_be_bytes());
             out.extend_from_slice(&creation.to_be_bytes());
+        }
+        Val::Export(m, f, a) => {
+            out.push(113);
+            enc_atom(out, m, pos);
+            enc_atom(out, f, pos);
+            out.push(97);
+            out.push(*a);
         }
         Val::Local(hash, inner) => {
             out.push(121);
@@ -401,6 +414,15 @@ pub fn dec_term(c: &mut Cur<'_>, hdr_atoms: &[String], depth: u32) -> Result<Val
                 ids.push(c.u32()?);
             }
             Val::Ref { node, creation, ids }
+        }
+        113 => {
+            let m = dec_atom(c, hdr_atoms, depth)?;
+            let f = dec_atom(c, hdr_atoms, depth)?;
+            let a = match dec_term(c, hdr_atoms, depth + 1)?.as_i64() {
+                Some(a) if (0..=255).contains(&a) => a as u8,
+                _ => return Err("EXPORT_EXT arity is not a small integer".into()),
+            };
+            Val::Export(m, f, a)
         }
         121 => {
             let hash = c.take(8)?.to_vec();
@@ -818,7 +840,26 @@ pub fn gen_ref(r: &mut Rng, node: Option<&str>) -> Val {
 pub fn gen_val(r: &mut Rng, size: u32) -> Val {
     let leaf = size <= 1 || r.chance(1, 3);
     if leaf {
-        return match r.below(9) {
+        return match r.below(11) {
+            9 => {
+                let p = Val::Port { node: gen_node(r), id: r.next_u64() >> r.below(64), creation: r.next_u32() >> r.below(32) };
+                if r.chance(1, 4) { Val::Local(r.bytes(8), Box::new(p)) } else { p }
+            }
+            10 => {
+                if r.chance(1, 2) {
+                    Val::Export(gen_atom(r), gen_atom(r), r.below(256) as u8)
+                } else {
+                    // a bigger binary now and then (the really big ones only where the caller asked for size)
+                    let n = if size >= 150 && r.chance(1, 8) {
+                        r.range(60_000, 140_000) as usize
+                    } else if size >= 8 {
+                        r.range(300, 3000) as usize
+                    } else {
+                        r.range(0, 64) as usize
+                    };
+                    Val::Bin(r.bytes(n))
+                }
+            }
             0 | 1 => Val::Atom(gen_atom(r)),
             2 | 3 => gen_int(r),
             4 => {
@@ -856,7 +897,21 @@ pub fn gen_val(r: &mut Rng, size: u32) -> Val {
     }
     let n = r.range(0, 4.min(u64::from(size))) as usize;
     let sub = size.saturating_sub(1) / (n.max(1) as u32);
-    match r.below(4) {
+    match r.below(6) {
+        4 => {
+            // improper list: at least one element and a non-list tail
+            let els: Vec<Val> = (0..n.max(1)).map(|_| gen_val(r, sub)).collect();
+            let tail = if r.chance(1, 2) { Val::Atom(gen_atom(r)) } else { gen_int(r) };
+            Val::List(els, Box::new(tail))
+        }
+        5 => {
+            if r.chance(1, 6) {
+                // arity above 255 needs the large tuple tag
+                Val::Tuple((0..r.range(256, 300)).map(|i| Val::int(i as i128)).collect())
+            } else {
+                Val::Tuple((0..n).map(|_| gen_val(r, sub)).collect())
+            }
+        }
         0 => Val::Tuple((0..n).map(|_| gen_val(r, sub)).collect()),
         1 => {
             // proper list whose elements are not all bytes (would be STRING_EXT territory)
